@@ -370,7 +370,7 @@ def ex_growth_boundary(rng, cap, delta, wide):
     for _ in range(cap - delta):
         pads.append(rng.choice([e_int("uint", rng.randrange(24)), e_bool(rng.random() < 0.5), e_int("negint", rng.randrange(24))]))
     ents = pads + [wide, e_int("uint", 7)]
-    dec = ["DNEW 1"] + ["SKIP 1"] * len(pads) + typed_decode(rng, 1, ents[len(pads):], peek=0.5, wrong=0.0) + ["REM 1", "DFREE 1"]
+    dec = ["DNEW 1"] + ["SKIP 1"] * len(pads) + typed_decode(rng, 1, ents[len(pads):], peek=0.5, wrong=0.0) + ["DFREE 1"]
     return ["RESET"] + lines(ents) + ["DATA"] + dec
 
 
